@@ -4,12 +4,14 @@ import (
 	"bytes"
 	"crypto/sha256"
 	"fmt"
+	"io"
 	"os"
 	"os/exec"
 	"path/filepath"
 	"strings"
 	"sync"
 	"testing"
+	"testing/iotest"
 
 	"github.com/llir/llvm/asm"
 	"github.com/llir/llvm/ir"
@@ -124,10 +126,16 @@ func checkInput(t hx.TB, test, x string, others []string, K int) {
 	path := filepath.Join(dir, "in.ll")
 	os.WriteFile(path, []byte(x), 0o644)
 	entry := map[string]func() (*ir.Module, error){
-		"ParseFile":   func() (*ir.Module, error) { return asm.ParseFile(path) },
-		"Parse":       func() (*ir.Module, error) { return asm.Parse(path, strings.NewReader(x)) },
-		"ParseBytes":  func() (*ir.Module, error) { return asm.ParseBytes(path, []byte(x)) },
-		"ParseString": func() (*ir.Module, error) { return asm.ParseString(path, x) },
+		"ParseFile": func() (*ir.Module, error) { return asm.ParseFile(path) },
+		"Parse":     func() (*ir.Module, error) { return asm.Parse(path, strings.NewReader(x)) },
+		// readers with other, equally legal, delivery habits: the last bytes together with io.EOF, one byte
+		// at a time, half of what is asked for, and a chunked reader that ends on a full last chunk
+		"Parse(data+EOF reader)":  func() (*ir.Module, error) { return asm.Parse(path, iotest.DataErrReader(strings.NewReader(x))) },
+		"Parse(one-byte reader)":  func() (*ir.Module, error) { return asm.Parse(path, iotest.OneByteReader(strings.NewReader(x))) },
+		"Parse(half reader)":      func() (*ir.Module, error) { return asm.Parse(path, iotest.HalfReader(strings.NewReader(x))) },
+		"Parse(chunked data+EOF)": func() (*ir.Module, error) { return asm.Parse(path, &chunkEOFReader{s: x, chunk: 1 + len(x)/3}) },
+		"ParseBytes":              func() (*ir.Module, error) { return asm.ParseBytes(path, []byte(x)) },
+		"ParseString":             func() (*ir.Module, error) { return asm.ParseString(path, x) },
 	}
 	for name, f := range entry {
 		var m *ir.Module
@@ -332,4 +340,25 @@ func TestReplay(t *testing.T) {
 		t.Fatal(err)
 	}
 	checkInput(t, "Replay", string(buf), nil, 64)
+}
+
+// chunkEOFReader delivers s in chunks and returns io.EOF together with the last chunk.
+type chunkEOFReader struct {
+	s     string
+	chunk int
+}
+
+func (r *chunkEOFReader) Read(p []byte) (int, error) {
+	n := r.chunk
+	if n > len(p) {
+		n = len(p)
+	}
+	if n >= len(r.s) {
+		n = copy(p, r.s)
+		r.s = ""
+		return n, io.EOF
+	}
+	copy(p, r.s[:n])
+	r.s = r.s[n:]
+	return n, nil
 }
